@@ -286,6 +286,7 @@ def main():
     violations = []   # (replay_path, suffix)
     known_lines = []
     notes = []
+    crashes = []
 
     ok_h, out_h = build_harness()
     ok_l, out_l = build_lean([P["proof_module"]] + P.get("extra_modules", []) + ["foyer_model"])
@@ -335,6 +336,11 @@ def main():
                 rc, out = sh([HARNESS, cdom, f"seed={seed}"] + args, timeout=7200)
                 if rc != 0:
                     notes.append(f"campaign {name}: harness exited {rc}: {out[-300:]}")
+                # exit 3 = the watchdog's deadlock report (a trace with a ret=deadlock line, judged below); any other
+                # failure of the harness, or a campaign without a single trace, means the real code could not be
+                # driven through the campaign: the tie to /repo is gone for it
+                if rc not in (0, 3) or not split_traces(out):
+                    crashes.append((name, cdom, [HARNESS, cdom, f"seed={seed}"] + args, rc, out[-3000:]))
             traces = split_traces(out)
             res = run_model(out)
             if len(res) != len(traces):
@@ -380,6 +386,13 @@ def main():
                                 note=f"model and implementation disagree; monitors of {prop} hold on this trace; "
                                      f"correspondence {P['proof_module']}/Driver.{fdom} no longer checks")
             violations.append((path, " no-failing-input-found"))
+
+    for name, cdom, cmd, rc, tail in crashes:
+        path = write_replay(prop, tier, seed, "harness-crashed", f"campaign={name}",
+                            f"the harness exited with code {rc} / produced no trace while driving the real code",
+                            ["# command: " + " ".join(cmd)] + ["# " + l for l in tail.splitlines()[-40:]],
+                            note=f"the correspondence campaign {name} (Driver.{cdom}) could not be run against /repo")
+        violations.append((path, " no-failing-input-found"))
 
     if proof_broken:
         # the search for a failing input is the campaign above; if it found one it is already reported
